@@ -114,8 +114,16 @@ FunCases ==
 Canon(o) == IF o = "!=" THEN "<>" ELSE IF o = "==" THEN "=" ELSE o
 AliasChars(tt) == Unparse(tt.l, TRUE, FALSE) \o <<" ">> \o (IF tt.o = "!=" THEN <<"!", "=">> ELSE <<"=", "=">>) \o <<" ">> \o Unparse(tt.r, TRUE, FALSE)
 
+RECURSIVE FlatSeq(_, _)
+FlatSeq(os, as) == IF os = <<>> THEN <<Head(as)>> ELSE <<Head(as)>> \o OpByName(Head(os)).id \o FlatSeq(Tail(os), Tail(as))
+FlatCase(os, as) == [k |-> "X", cs |-> FlatSeq(os, as), tree |-> Parse(FlatSeq(os, as))]
+FlatOperands == {<<"i7", "i2", "i3">>, <<"i12", "i5", "i2">>, <<"i3", "i7", "i5">>}
+
 CaseOf(md, tt) ==
-  IF md = "alias"
+  IF md = "flat"
+  THEN [src |-> md, op |-> tt.tree.o, cs |-> tt.cs, csp |-> tt.cs, o |-> Observable(Ev(tt.tree)), depth |-> Depth(tt.tree),
+        dev |-> Devs(tt.tree, Atoms)]
+  ELSE IF md = "alias"
   THEN [src |-> md, op |-> tt.o, cs |-> AliasChars(tt), o |-> Observable(ApplyBin(Canon(tt.o), Ev(tt.l), Ev(tt.r))), depth |-> 2,
         dev |-> IF tt.o = "!=" THEN {"alias_noteq"} ELSE {}]
   ELSE [src |-> md, op |-> IF tt.k \in {"B", "U"} THEN tt.o ELSE IF tt.k = "F" THEN tt.f ELSE "atom",
@@ -126,11 +134,12 @@ CaseOf(md, tt) ==
 VARIABLES mode, sel, t
 vars == <<mode, sel, t>>
 None == [k |-> "none"]
-Modes == IF MaxDepth > 0 THEN {"sim"} ELSE {"bin", "fun", "alias"}
+Modes == IF MaxDepth > 0 THEN {"sim"} ELSE {"bin", "fun", "alias", "flat"}
 
 Init == \/ "bin" \in Modes /\ mode = "bin" /\ sel \in BinOpNames \cup UnOpNames /\ t = None
         \/ "fun" \in Modes /\ mode = "fun" /\ sel \in {c.f : c \in FunCases} /\ t = None
         \/ "alias" \in Modes /\ mode = "alias" /\ sel \in {"!=", "=="} /\ t = None
+        \/ "flat" \in Modes /\ mode = "flat" /\ sel \in BinOpNames /\ t = None
         \/ "sim" \in Modes /\ mode = "sim" /\ sel = "-" /\ t \in Operands
 
 Wrappers == {"ABS", "SGN", "INT", "BITCNT", "LASTBIT", "FIRSTBIT", "STRLEN", "UPSTRING", "EXPRTYPE", "SQRT"}
@@ -143,6 +152,10 @@ Next ==
      /\ UNCHANGED <<mode, sel>>
   \/ /\ mode = "alias" /\ t = None
      /\ t' \in {Bin(sel, l, r) : l \in {A("i3"), A("f15"), A("sa")}, r \in {A("i3"), A("i5"), A("f15"), A("sb")}}
+     /\ UNCHANGED <<mode, sel>>
+  \/ /\ mode = "flat" /\ t = None      \* parenthesis-free formulas: the grouping is the manual's rank table (Expr_MC: FlatObeysRanks)
+     /\ t' \in {FlatCase(<<sel, o2>>, tr) : o2 \in BinOpNames, tr \in FlatOperands}
+               \cup (IF Level >= 2 THEN {FlatCase(<<sel, o2, o3>>, <<"i12", "i5", "i7", "i2">>) : o2 \in BinOpNames, o3 \in BinOpNames} ELSE {})
      /\ UNCHANGED <<mode, sel>>
   \/ /\ mode = "sim"
      /\ PrintT(<<"OUT", ToJson(CaseOf(mode, t))>>)                  \* once per visited state (the simulator evaluates
